@@ -98,6 +98,9 @@ def ground(rep, inv, tb):
             rep.add(o)
 
 
+SEQ_LENGTHS = (2, 3)
+
+
 def generate(inv, tb):
     ws, obs = [], []
     for q, e in sorted(tb.items()):
@@ -113,8 +116,16 @@ def generate(inv, tb):
                        'const phqv_sv s = phqv_any_string(); const std::optional<%s> r = PhQ::ParseEnumeration<%s>(std::string_view(s.p, s.n)); iout[0] = r.has_value(); iout[1] = r.has_value() ? (long)*r : -1;' % (E, E),
                        n_iout=2, flatten=False, meta={'max_paths': 20000})
         ws += [w1, w2, w3]
+        # two consecutive parses out of the same buffer (contents replaced in between), symbolic bytes: hidden state between
+        # lookups - a cache keyed on the caller's view - shows here
+        for L in SEQ_LENGTHS:
+            fill = lambda off: ' '.join('buf[%d] = (char)iin[%d];' % (i, off + i) for i in range(L))
+            body = ('char buf[%d]; %s const std::optional<%s> r1 = PhQ::ParseEnumeration<%s>(std::string_view(buf, %d)); iout[0] = r1.has_value(); iout[1] = r1.has_value() ? (long)*r1 : -1; '
+                    '%s const std::optional<%s> r2 = PhQ::ParseEnumeration<%s>(std::string_view(buf, %d)); iout[2] = r2.has_value(); iout[3] = r2.has_value() ? (long)*r2 : -1;' % (
+                        L, fill(0), E, E, L, fill(L), E, E, L))
+            ws.append(H.Wrapper('w_pseq%d_%s' % (L, tag), 'f64', 0, 'f64', 0, body, n_iout=4, n_iin=2 * L, flatten=False, meta={'max_paths': 20000}))
         obs.append({'id': q, 'q': q, 'abbr': w1.name, 'stream': w2.name, 'parse': w3.name, 'vals': vals,
-                    'ab': {str(k): a for k, a in e['abbreviations']}, 'sp': {s_: k for s_, k in e['spellings']}})
+                    'ab': {str(k): a for k, a in e['abbreviations']}, 'sp': {s_: k for s_, k in e['spellings']}, 'pseq': ['w_pseq%d_%s' % (L, tag) for L in SEQ_LENGTHS]})
     return ws, obs
 
 
@@ -204,6 +215,73 @@ def one(ctx, d):
         o.desc += ' [%d paths]' % len(r.paths)
 
 
+def seq(ctx, d):
+    """two parses from one buffer whose bytes are replaced in between: each returns what the table says for the bytes the
+    buffer holds at that moment"""
+    q = d['q']
+    for wn in d['pseq']:
+        w = ctx.byname[wn]
+        L = w.n_iin // 2
+        o = ctx.ob('%s parse sequence, length %d' % (q, L), 'parse-sequence', 'BIT',
+                   '%s: two consecutive ParseEnumeration calls on the same %d-byte buffer, its contents replaced in between (all %d bytes symbolic): each call returns the table entry of the bytes it was given, or nothing' % (q, L, 2 * L))
+        o.key = o.oid
+        r = ctx.result(wn)
+        if r is None or r.error:
+            o.reason = ctx.why_missing(wn)
+            continue
+        table = {}
+        for sp_, v in d['sp'].items():
+            b = sp_.encode('utf-8')
+            if len(b) == L:
+                table[b] = v
+        kb = [z3.Extract(7, 0, z3.BitVec('k%d' % i, 64)) for i in range(2 * L)]
+
+        def expect(off):
+            has, val = z3.BitVecVal(0, 64), z3.BitVecVal((1 << 64) - 1, 64)
+            for b, v in table.items():
+                c = z3.And(*[kb[off + i] == b[i] for i in range(L)])
+                has = z3.If(c, z3.BitVecVal(1, 64), has)
+                val = z3.If(c, z3.BitVecVal(v & ((1 << 64) - 1), 64), val)
+            return [has, val]
+        exp = expect(0) + expect(L)
+        it = modes.Bit()
+        bad = []
+        for p in r.paths:
+            pcz = [it.ev(c) for c in p.pc]
+            if p.status != 'ret' or p.ub or any(t is None for t in p.iout):
+                bad.append(z3.And(*pcz) if pcz else z3.BoolVal(True))
+                continue
+            diffs = [it.ev(a) != b for a, b in zip(p.iout, exp)]
+            bad.append(z3.And(*(pcz + [z3.Or(*diffs)])))
+        o.desc += ' [%d paths, %d spellings of this length]' % (len(r.paths), len(table))
+
+        def rp(xs, ks):
+            kk = [int(v) & 0xFF for v in ks]
+            _, got = ctx.unit.call_native(w, [], kk)
+            want = []
+            for off in (0, L):
+                v = table.get(bytes(kk[off:off + L]))
+                want += [1, v] if v is not None else [0, -1]
+            rp.case['expected_iout'] = want
+            rp.case['expected_out'] = []
+            return list(got) != want, 'bytes %s then %s: the calls return %s natively, the table says %s' % (bytes(kk[:L]), bytes(kk[L:]), list(got), want)
+        rp.case = {'kind': 'values', 'impl': w.name}
+        ctx.decide(o, [z3.Or(*bad) if bad else z3.BoolVal(False)], w, rp, grid=False)
+
+
+def seq_worker(ctx):
+    ctx.summaries = SM.containers()
+    ctx.summaries.update(SM.heap())
+    SS.install(ctx.summaries, ctx.unit.mod)
+    ctx.init_tables = 'all'
+    for d in ctx.spec.payload['obs']:
+        engine.guarded(ctx, d['id'] + ' parse sequence', lambda d=d: seq(ctx, d))
+
+
+def any_worker(ctx):
+    (seq_worker if ctx.spec.payload.get('seq') else worker)(ctx)
+
+
 def main():
     rep = core.Report(PROP)
     work, inv = C.setup(PROP)
@@ -218,7 +296,11 @@ def main():
         names = [d[k] for d in part for k in ('abbr', 'stream', 'parse')]
         specs.append(engine.UnitSpec('c08_%d' % ci, incs + ['sstream'], [byw[x] for x in names], {'obs': part, 'prop': PROP},
                                      extra_src=EXTRA, extra_clang=['-fno-inline'], native=False))
-    results = engine.run_units(specs, worker, work)
+    for ci, part in enumerate(engine.chunk(obs, 8)):
+        names = [n for d in part for n in d['pseq']]
+        specs.append(engine.UnitSpec('c08_seq_%d' % ci, incs + ['sstream'], [byw[x] for x in names], {'obs': part, 'prop': PROP, 'seq': True},
+                                     extra_src=EXTRA, extra_clang=['-fno-inline'], native=True))
+    results = engine.run_units(specs, any_worker, work)
     engine.collect(rep, results)
     rep.bounds = {'enumeration_types': len(tb), 'enumerators': sum(len(e['enumerators']) for e in tb.values()),
                   'spellings': sum(len(e['spellings']) for e in tb.values()),
